@@ -183,6 +183,7 @@ def dispatch (fn : String) (j : Json) : P Json := do
   | "decodeWire" => decodeWireFn j
   | "encodeWire" => encodeWireFn j
   | "recodeWire" => recodeWireFn j
+  | "mapper" => mapperFn j
   | _ => throw s!"unknown fn {fn}"
 
 def handle (line : String) : String :=
